@@ -77,7 +77,7 @@ func exhaustiveTable() []caseDef {
 			add(c)
 		}
 	}
-	for _, st := range []string{stAbsent, stPresent, stPresentFile} {
+	for _, st := range []string{stAbsent, stPresent, stPresentFile, stPresentDir} {
 		add(base("renameio.Symlink", shared.OpSymlink, st, tmpSandbox))
 	}
 	for _, st := range states {
@@ -461,7 +461,7 @@ func genCase(t *rapid.T) caseDef {
 	all3 := []string{stAbsent, stPresent, stPresentMode}
 	variants := []variant{
 		{"renameio.WriteFile", shared.OpWriteFile, all3, []string{tmpSandbox, tmpForeign}},
-		{"renameio.Symlink", shared.OpSymlink, []string{stAbsent, stPresent, stPresentFile}, []string{tmpSandbox}},
+		{"renameio.Symlink", shared.OpSymlink, []string{stAbsent, stPresent, stPresentFile, stPresentDir}, []string{tmpSandbox}},
 		{"utils.CreateAtomic", shared.OpCreateAtomic, all3, []string{tmpSandbox, tmpForeign, tmpExplicit, tmpExplicitForeign}},
 		{"utils.CreateAtomic(failing reader)", shared.OpCreateAtomic, []string{stAbsent, stPresent}, []string{tmpSandbox, tmpExplicit}},
 		{"utils.CopyFileAtomic", shared.OpCopyAtomic, all3, []string{tmpSandbox, tmpForeign, tmpExplicit, tmpExplicitForeign}},
